@@ -9,6 +9,7 @@ M: MC_Pipeline - the design-level composition (Beast.tla's buffer loop, Dedup.tl
 G: Gen_Pipeline - TLC simulation produces the scenarios (frames, reception ids with 0x1A bytes,
    duplicates on other/same receiver, undecodable / Mode-AC / status frames, filter lists, chunkings,
    trailing frames with fresh addresses and TLC-computed parity).
+   (also: /track histories t_filter / t_history, /sensors references s_reference, crash x_died)
 V: engine/pipeline.py runs each scenario against `<build>/jet1090 --verbose ... tcp://127.0.0.1:p ..`
    and Trace_Pipeline judges the recorded run, clause by clause.  Only V yields VIOLATION.
 Binding self-test on every run: the recorded trace is corrupted once per clause and Trace_Pipeline
@@ -27,8 +28,8 @@ LEVEL = "model_checking"
 
 MC_QUICK = ["mc/MC_Pipeline_quick.cfg"]
 MC_THOROUGH = ["mc/MC_Pipeline_quick.cfg", "mc/MC_Pipeline_b.cfg", "mc/MC_Pipeline_c.cfg", "mc/MC_Pipeline_d.cfg"]
-MUTANTS_QUICK = ["table_after_filter", "no_skew_bound", "members_sorted"]
-MUTANTS_THOROUGH = ["table_after_filter", "no_skew_bound", "members_sorted", "no_filter", "print_first_only", "dedup_first_meta",
+MUTANTS_QUICK = ["table_after_filter", "no_skew_bound", "members_sorted", "history_unfiltered"]
+MUTANTS_THOROUGH = ["table_after_filter", "no_skew_bound", "members_sorted", "history_unfiltered", "no_filter", "print_first_only", "dedup_first_meta",
                     "dedup_push_always"]
 ACTIONS = ("DeliverAny", "Tick", "DedupArrive", "Emit", "PrintRec")
 
@@ -67,14 +68,10 @@ def model_check(run, thorough):
                 raise core.ToolError(f"spec mutant {mut} was not refuted by AbsChecked:\n{r.out[-1500:]}")
             res["mutants"][mut] = {"refuted": True, "wall_s": round(r.wall, 1), "states": r.distinct}
 
-    if thorough:                       # two lanes of TLC (3 workers each)
-        with cf.ThreadPoolExecutor(max_workers=2) as ex:
-            fs = [ex.submit(configs), ex.submit(mutants)]
-            for f in fs:
-                f.result()
-    else:
-        configs()
-        mutants()
+    with cf.ThreadPoolExecutor(max_workers=2) as ex:      # two lanes of TLC (3 workers each)
+        fs = [ex.submit(configs), ex.submit(mutants)]
+        for f in fs:
+            f.result()
     return res
 
 
@@ -173,6 +170,16 @@ def corruptions(events):
         add("a_serial", c)
         c = copy.deepcopy(sc); c[0]["junk"] = 1
         add("c_junk", c)
+        trk = [i for i, e in enumerate(sc) if e["e"] == "track" and e["h"]]
+        if trk:
+            c = copy.deepcopy(sc); c[trk[0]]["h"][0]["icao"] ^= 1          # an element of another aircraft
+            add("t_filter", c)
+            c = copy.deepcopy(sc); c[trk[0]]["h"].append(copy.deepcopy(c[trk[0]]["h"][0]))   # stored twice
+            add("t_history", c)
+        sen = next((i for i, e in enumerate(sc) if e["e"] == "sensors" and e["ok"] and e["list"]), None)
+        if sen is not None:
+            c = copy.deepcopy(sc); c[sen]["list"][0]["has"] = not c[sen]["list"][0]["has"]; c[sen]["list"][0]["lat"] = 5
+            add("s_reference", c)
         c = copy.deepcopy(sc); c[0]["died"] = True
         add("x_died", c)
         skew = pipeline.SKEW_MS
